@@ -288,7 +288,7 @@ def U3(ctx):
         cb = prog.fns[k].body
         for b, blk in enumerate(cb.blocks):
             for s in blk["stmts"]:
-                if s["k"] == "=" and s["lhs"]["l"] == 0 and s["rv"]["k"] == "agg" and s["rv"].get("variant") == "Yield":
+                if s["k"] == "=" and s["rv"]["k"] == "agg" and s["rv"].get("adt") == "rt::path::Thread" and s["rv"].get("variant") == "Yield":
                     if any(mentions_call(ge, T + "::is_yield") and pol is True for (ge, pol, v, sb) in guard_atoms(cb, b)):
                         seeded = True
     if seeded:
